@@ -602,10 +602,6 @@ func stateFoundArrayItemBeginOrEmpty(s *Scanner, c byte) state {
 }
 
 func stateFoundArrayItemBegin(s *Scanner, c byte) state {
-	if bytes.IsNewLine(c) && s.annotation == annotationNone {
-		// A new line after "," re-enables annotations, as it does for object properties.
-		s.allowAnnotation = true
-	}
 	if s.isCommentStart(c) {
 		s.switchToComment()
 		return scanContinue
